@@ -76,10 +76,18 @@ class Ctx:
 
 
 def load_findings():
-    p = os.path.join(VERIF, 'known_findings.json')
-    if not os.path.exists(p):
-        return {'findings': [], 'fixed': []}
-    return json.load(open(p))
+    """known_findings.json (committed, never written at run time) + per-property fragments findings/*.json"""
+    out = {'findings': [], 'fixed': []}
+    paths = [os.path.join(VERIF, 'known_findings.json')]
+    fd = os.path.join(VERIF, 'findings')
+    if os.path.isdir(fd):
+        paths += [os.path.join(fd, f) for f in sorted(os.listdir(fd)) if f.endswith('.json')]
+    for p in paths:
+        if os.path.exists(p):
+            d = json.load(open(p))
+            out['findings'] += d.get('findings', [])
+            out['fixed'] += d.get('fixed', [])
+    return out
 
 
 def write_replay(prop, payload):
@@ -170,6 +178,7 @@ def main():
     targets = list(mod.TARGETS)
     if not a.no_build:
         with lean.Locked():
+            subprocess_run_gen_all()
             terrs = lean.regen('/repo')
             broken += [f'translation: {e}' for e in terrs]
             ok, log = lean.build(targets + ['SFModel.Drv.All'])
@@ -282,6 +291,11 @@ def main():
     print(f'{prop} {a.tier}: obligations {discharged}/{len(obligations)} evaluations={ctx.evaluations} '
           f'distinct_nontrivial={len(ctx.distinct)} known={sorted(seen_known)} wall={ev["wall_s"]}s rc={rc}')
     return rc
+
+
+def subprocess_run_gen_all():
+    import subprocess
+    subprocess.run([sys.executable, os.path.join(VERIF, 'tools', 'gen_drv_all.py')], check=True)
 
 
 def lean_timeout_errors():
